@@ -52,12 +52,15 @@ REQUIRES = ["PV.Model.Val", "PV.Model.FitRetry"]
 REQUIRES_SRC = ["PV.Model.Val", "PV.Model.FitRetry", "PV.Model.FitRetrySrc", "PV.gen.Src_fitretry"]
 OK_FUN_SRC = ("fun c => let '(rpat, nX, nY, s2, tmp, fl, dr) := fst c in let '(code, exc, tr) := snd c in "
               "rf_matches (run_robust src_robust rpat (nth_bool fl) (nth_nat dr) 0 nX nY s2 tmp) code exc tr")
-INIT_OK_SRC = "fun c => init_matches (run_init 1000 src_init (nth_bool (fst c)) false 0) (snd c)"
 CASE_TY = "(Z * nat * nat * s2len * option nat * list bool * list nat) * (option Z * string * list attempt)"
 OK_FUN = ("fun c => let '(rpat, nX, nY, s2, tmp, fl, dr) := fst c in let '(code, exc, tr) := snd c in "
           "rf_matches (robust_fit true rpat (nth_bool fl) (nth_nat dr) 0 nX nY s2 tmp) code exc tr")
-INIT_TY = "(list bool) * nat"
-INIT_OK = "fun c => init_matches (init_training 1000 (nth_bool (fst c)) false 0) (snd c)"
+# (fault pattern, (fit invocations, the successful attempt started from the all-zero vector))
+INIT_TY = "(list bool) * (nat * bool)"
+INIT_MATCH = ("(fun (r : init_result) (e : nat * bool) => match r with IReturned n br => Nat.eqb n (fst e) && "
+              "Bool.eqb (match br with BrZeros => true | _ => false end) (snd e) | _ => false end)")
+INIT_OK = f"fun c => {INIT_MATCH} (init_training 1000 (nth_bool (fst c)) false 0) (snd c)"
+INIT_OK_SRC = f"fun c => {INIT_MATCH} (run_init 1000 src_init (nth_bool (fst c)) false 0) (snd c)"
 
 
 def c_s2(v):
@@ -240,7 +243,8 @@ def tie(ctx, broken):
                 ctx.count(1, 1 if nf > 0 else 0)
             elif "exc" not in s:
                 n = len(att)
-                init_cases.append(f"({clist([cbool(i < n - 1) for i in range(n)])}, {cnat(n)})")
+                init_cases.append(f"({clist([cbool(a.get('raised', i < n - 1)) for i, a in enumerate(att)])}, "
+                                  f"({cnat(n)}, {cbool(att[-1].get('start') == 'zeros')}))")
                 stat["sessions_with_failures"] += n > 1
                 ctx.count(1, 1 if n > 1 else 0)
                 if len({(a['nX'], a['nY'], a['s2']) for a in att}) != 1:
